@@ -34,6 +34,35 @@ Theorem C19_format_names : forall r w,
 Proof. exact format_names. Qed.
 Print Assumptions C19_format_names.
 
+(* String const / in values are strings (repaired defect string-value-untagged-scalar; the nodes are tagged
+   !!str).  For every string c - "123", "true", "null" and "" included - the schema published for
+   string.const = c accepts exactly the JSON string c, and the schema published for string.in = a :: l
+   exactly the JSON strings of the list: no number, boolean or null in their place, the string itself never
+   rejected.  P is any regex matcher / format checker, j any JSON value. *)
+Theorem C19_string_const_in_are_strings : forall (P : vparams) (fuel : nat) (j : jv),
+  1 <= fuel ->
+  (forall c, validates P [] fuel (translate reader12 fstr (const_rules c)) j
+             = VOk (match j with JVStr x => str_eqb c x | _ => false end)) /\
+  (forall a l, validates P [] fuel (translate reader12 fstr (in_rules (a :: l))) j
+               = VOk (match j with JVStr x => mem_str x (a :: l) | _ => false end)).
+Proof. exact string_const_in_are_strings. Qed.
+Print Assumptions C19_string_const_in_are_strings.
+
+(* the JSON rendering reads the same node as the same string, except for the YAML 1.1 boolean words
+   (C18 finding yaml11-bool-word) *)
+Theorem C19_string_node_json_rendering : forall x,
+  yaml11_bool_word x = false -> denote reader11 (YStr x) = JVStr x /\ denote reader12 (YStr x) = JVStr x.
+Proof. exact string_node_json_rendering. Qed.
+Print Assumptions C19_string_node_json_rendering.
+
+(* the hostile spellings through the whole pipeline (emitted node, both renderings, no defect tag, the string
+   accepted, what an untagged node would have denoted rejected) *)
+Example C19_string_const_in_are_strings_examples :
+  Forall const_in_ok [s "123"; s "true"; s "null"; s ""; s "1.5"; s "-7"; s "~"; s "fixed"] /\
+  map (rd_plain reader12) [s "123"; s "true"; s "null"; s ""] = [JVNum (dec_of_Z 123); JVBool true; JVNull; JVNull] /\
+  map (reads_as_string reader12) [s "123"; s "true"; s "null"; s ""; s "fixed"] = [false; false; false; false; true].
+Proof. exact string_const_in_are_strings_examples. Qed.
+
 (* Refutations: for each defect class a field, a rule set in exactly that class, and a well-typed value on
    which rules and published schema disagree (refutes tag fs r v, see RulesFacts). *)
 Theorem C19_refuted_wrong_message : refutes RulesWrongMessage (fsp KUint32 Singular false) (with_gte (ib 5)) (FOne (RNum (dec_of_Z 0))).
@@ -56,8 +85,6 @@ Theorem C19_refuted_len_ignored : refutes StringLenIgnored (fsp KString Singular
 Proof. exact refuted_len_ignored. Qed.
 Theorem C19_refuted_not_in_ignored : refutes StringNotInIgnored (fsp KString Singular false) (str_rules None None None [s "root"] None) (FOne (RStr (s "root"))).
 Proof. exact refuted_not_in_ignored. Qed.
-Theorem C19_refuted_untagged_scalar : refutes UntaggedStringScalar (fsp KString Singular false) (str_rules None None None [] (Some (s "123"))) (FOne (RStr (s "123"))).
-Proof. exact refuted_untagged_scalar. Qed.
 Theorem C19_refuted_item_rules : refutes ItemRulesIgnored (fsp KString Repeated false) (str_rules (Some 2%N) None None [] None) (FList [RStr (s "a")]).
 Proof. exact refuted_item_rules. Qed.
 Theorem C19_refuted_zero_max : refutes ZeroMaxDropped (fsp KString Singular false) (str_rules None (Some 0%N) None [] None) (FOne (RStr (s "a"))).
